@@ -101,6 +101,16 @@ func c09() {
 	plans = append(plans, c09Plan{desc: "tsync chain", threads: 4, calls: []vlib.LoadCall{{Thread: 0, Op: "load", Flags: flagTSync, NNP: true, Policy: "valid0"},
 		{Thread: 1, Op: "load", Flags: flagTSync, NNP: false, Policy: "valid1"}, {Thread: 2, Op: "load", Flags: 0, NNP: false, Policy: "valid2"}, {Thread: 3, Op: "load", Flags: flagTSync, NNP: false, Policy: "valid3"},
 		{Thread: 2, Op: "load", Flags: flagTSync, NNP: false, Policy: "valid4"}}})
+	// the same filter (same policy, same flags) loaded again, from the same and from other threads: every nil result
+	// must mean a filter of its own on the calling thread
+	for _, fl := range []uint32{0, flagLog, flagTSync} {
+		for _, nnp := range []bool{true, false} {
+			plans = append(plans, c09Plan{desc: fmt.Sprintf("identical filter loaded repeatedly flags=%#x nnp=%v", fl, nnp), threads: 4, calls: []vlib.LoadCall{
+				{Thread: 0, Op: "load", Flags: fl, NNP: nnp, Policy: "valid0"}, {Thread: 1, Op: "load", Flags: fl, NNP: nnp, Policy: "valid0"},
+				{Thread: 1, Op: "load", Flags: fl, NNP: nnp, Policy: "valid0"}, {Thread: 2, Op: "load", Flags: fl, NNP: nnp, Policy: "valid1"},
+				{Thread: 3, Op: "load", Flags: fl, NNP: nnp, Policy: "valid0"}, {Thread: 0, Op: "load", Flags: fl, NNP: nnp, Policy: "valid1"}}})
+		}
+	}
 	nCat := len(plans)
 	// PRNG histories
 	nRandom := run.N(240, 8000)
@@ -134,7 +144,9 @@ func c09() {
 					call.Policy = "no-groups"
 				default:
 					call.Policy = fmt.Sprintf("valid%d", validUsed%len(probeNrs))
-					validUsed++
+					if r.Intn(3) != 0 { // often the same filter again (possibly from another thread)
+						validUsed++
+					}
 				}
 			}
 			pl.calls = append(pl.calls, call)
